@@ -168,7 +168,7 @@ def answer (line : String) : String :=
 partial def loop (h : IO.FS.Stream) : IO Unit := do
   let line ← h.getLine
   if line.isEmpty then return ()
-  IO.println (answer (line.dropRightWhile (· == '\n')))
+  IO.println (answer (line.dropEndWhile (· == '\n')).toString)
   loop h
 
 def main : IO Unit := do loop (← IO.getStdin)
